@@ -2,3 +2,4 @@
 import AJ.Props.C05
 import AJ.Props.C05Doc
 import AJ.Props.C05Copy
+import AJ.Props.C05Deser
